@@ -51,9 +51,9 @@ def viewOf (c : Call) : CallView :=
       | none => .pending
     nsets := c.sets.length
     depth := match c.phase with
-      | .waitOpen => 1 | .live none => 1 | .live (some _) => 2 | .over _ => 0
+      | .waitOpen _ => 1 | .live none => 1 | .live (some _) => 2 | .over _ => 0
     timer := match c.phase with
-      | .live (some _) => 1 | .over (.cancelled _ _) => 2 | .over .fired => 3 | _ => 0
+      | .waitOpen (some _) => 1 | .live (some _) => 1 | .over (.cancelled _ _) => 2 | .over .fired => 3 | _ => 0
     lowerGot := c.lowerGot
     evtSet := c.evtSet }
 
@@ -213,10 +213,10 @@ def isOpenLate : Verdict → Bool
 /-! ### legal operation lists (hypotheses of the theorems) -/
 
 def armedBefore (s : FE) (t : Nat) : Bool :=
-  s.calls.any (fun c => match c.phase with | .live (some due) => decide (due < t) | _ => false)
+  s.calls.any (fun c => match c.armedDue with | some due => decide (due < t) | none => false)
 
 def armedAtOrBefore (s : FE) (t : Nat) : Bool :=
-  s.calls.any (fun c => match c.phase with | .live (some due) => decide (due ≤ t) | _ => false)
+  s.calls.any (fun c => match c.armedDue with | some due => decide (due ≤ t) | none => false)
 
 /-- time is monotone; the timer queue is punctual (C10: no armed timer is overdue when
     anything else happens); a timer action runs only when enabled; the environment answers
